@@ -65,12 +65,12 @@ def r1_stop_checks(chk: Check) -> None:
         chk.expect("is_interrupted" in text and "has_reached_the_failure_limit" in text, "C12.R1", ctl, "is_stopped = interrupted or failure limit", f"is_stopped ignores a stop source: `{text}`", ctl.loc())
     hts = P.func("engine/context.py:EngineContext.has_to_stop")
     r = simple_return_expr(hts)
-    chk.decide(bool(r) and unparse(r[0]) == "self.control.is_stopped", "C12.R1", hts, "has_to_stop -> control.is_stopped", f"has_to_stop returns `{unparse(r[0]) if r else '?'}`", hts.loc())
+    chk.decide(bool(r) and ceq(hts, r[0], 'self.control.is_stopped'), "C12.R1", hts, "has_to_stop -> control.is_stopped", f"has_to_stop returns `{unparse(r[0]) if r else '?'}`", hts.loc())
     ii = P.func("engine/control.py:ExecutionControl.is_interrupted")
     r = simple_return_expr(ii)
-    chk.decide(bool(r) and unparse(r[0]) == "self.stop_event.is_set()", "C12.R1", ii, "is_interrupted -> stop_event.is_set()", "interruption is not read from the stop event", ii.loc())
+    chk.decide(bool(r) and ceq(ii, r[0], 'self.stop_event.is_set()'), "C12.R1", ii, "is_interrupted -> stop_event.is_set()", "interruption is not read from the stop event", ii.loc())
     st = P.func("engine/control.py:ExecutionControl.stop")
-    chk.decide(any(unparse(c.func) == "self.stop_event.set" for c in body_calls(st)), "C12.R1", st, "stop() sets the stop event", "stop() no longer sets the event workers poll", st.loc())
+    chk.decide(any(ceq(st, c.func, 'self.stop_event.set') for c in body_calls(st)), "C12.R1", st, "stop() sets the stop event", "stop() no longer sets the event workers poll", st.loc())
 
 
 def r2_failure_limit(chk: Check) -> None:
@@ -191,7 +191,7 @@ def r3_plumbing(chk: Check) -> None:
     wt = P.func(f"{UNIT}:worker_task")
     cfgs = [c for c in body_calls(wt) if last_attr(c) == "HypothesisTestConfig"]
     v = kwarg(cfgs[0], "settings") if cfgs else None
-    chk.decide(v is not None and unparse(v) == "ctx.config.execution.hypothesis_settings", "C12.R3", wt, "HypothesisTestConfig(settings=engine settings)", f"tests are created with settings `{unparse(v)}`", wt.loc())
+    chk.decide(v is not None and ceq(wt, v, 'ctx.config.execution.hypothesis_settings'), "C12.R3", wt, "HypothesisTestConfig(settings=engine settings)", f"tests are created with settings `{unparse(v)}`", wt.loc())
     ct = P.func("generation/hypothesis/builder.py:create_test")
     g = cfg_of(ct)
     merges = [c for c in body_calls(ct) if dotted(c.func) == "hypothesis.settings" and "config.settings" in unparse(c, 600)]
@@ -398,7 +398,7 @@ def r5_ratelimit(chk: Check) -> None:
     chk.decide(any(last_attr(c) == "build_limiter" and unparse(c.args[0]) == "rate_limit" for c in body_calls(cf) if c.args), "C12.R5", cf, "configure(rate_limit=) builds the limiter", "the configured rate limit never becomes a limiter", cf.loc())
     cl = P.func("schemas.py:BaseSchema.clone")
     kw = [kwarg(c, "rate_limiter") for c in body_calls(cl) if kwarg(c, "rate_limiter") is not None]
-    chk.decide(bool(kw) and unparse(kw[0]) == "self.rate_limiter", "C12.R5", cl, "clone keeps the rate limiter", "schemas derived with include/exclude/parametrize lose the rate limiter", cl.loc())
+    chk.decide(bool(kw) and ceq(cl, kw[0], 'self.rate_limiter'), "C12.R5", cl, "clone keeps the rate limiter", "schemas derived with include/exclude/parametrize lose the rate limiter", cl.loc())
 
 
 def rules(tier: str) -> list:  # type: ignore[type-arg]
